@@ -103,12 +103,13 @@ where
         {
             let mut vec = Vec::new();
 
-            while let Some(result) = seq.next_element::<T>().transpose() {
-                let Ok(elem) = result else {
-                    continue;
-                };
-
-                vec.push(elem);
+            // Buffer each item first, so that only an item of the wrong shape is skipped. An error
+            // of the underlying format (e.g. truncated input) ends the sequence instead of being
+            // retried forever.
+            while let Some(value) = seq.next_element::<JsonValue>()? {
+                if let Ok(elem) = T::deserialize(value) {
+                    vec.push(elem);
+                }
             }
 
             Ok(vec)
